@@ -1,7 +1,7 @@
 (* C17 — remote commands are executed once, in order; status is truthful.
    Only statements; proofs in Proofs/ThreadsQueue.v. *)
 From Coq Require Import List Bool Arith.
-From Pamiq Require Import Model.Threads Check.Sys Proofs.ThreadsQueue.
+From Pamiq Require Import Model.Threads Check.Sys Proofs.ThreadsQueue Proofs.StatusWindow.
 Import ListNotations.
 
 (* For any number of threads, any queue size (0 = unbounded) and EVERY accepted trace - every sequence of
@@ -25,3 +25,20 @@ Theorem C17_get_only_from_queue_head : forall n kind max_attempts with_web s c s
             (match c with CmdShutdown => shutAD (cp s') = true | _ => True end).
 Proof. intros n kind ma ww s c s' H. exact (ctl_queue n kind ma ww s (LQGet c) s' H). Qed.
 Print Assumptions C17_get_only_from_queue_head.
+
+(* The status half, "consistent with the flags at some instant during the request".  [truthful] is the oracle
+   evaluated on the flag writes and status requests of every observed run.  It never objects to a provider
+   that takes all its readings at one instant - for any number of threads, any writes by the other threads
+   before and after that instant inside the request, any number of requests - ... *)
+Theorem C17_snapshot_provider_is_truthful : forall n h, snapshot_history (flags0 n) h -> truthful n h = true.
+Proof. exact snapshot_truthful. Qed.
+Print Assumptions C17_snapshot_provider_is_truthful.
+
+(* ... and it does object to readings taken one after the other with no common lock, which is what the
+   provider of the pinned tree does: the history recorded there (open known finding D10) and a retried pause
+   in which 'paused' is answered although at no instant every thread had acknowledged. *)
+Theorem C17_sequential_reads_refuted :
+  (reads_current (flags0 2) d10_history = true /\ truthful 2 d10_history = false) /\
+  (reads_current (flags0 2) retry_history = true /\ truthful 2 retry_history = false).
+Proof. exact sequential_reads_refuted. Qed.
+Print Assumptions C17_sequential_reads_refuted.
